@@ -149,22 +149,10 @@ def hookedPostSeq : List Nat → Nat → List Val → List Pos
   | rp, i, v :: rest => hookedPostorder (i :: rp) v ++ hookedPostSeq rp (i + 1) rest
 end
 
-mutual
-/-- the subtree at a path (outermost index first); a hooked field and the value in it share a path -/
-def subtree : Val → List Nat → Option Val
-  | v, [] => some v
-  | .leaf _, _ :: _ => none
-  | .node _ _ _ kids, i :: p => subtreeKids kids i p
-  | .seq xs, i :: p => subtreeSeq xs i p
-def subtreeKids : List (Option Nat × Val) → Nat → List Nat → Option Val
-  | [], _, _ => none
-  | (_, v) :: _, 0, p => subtree v p
-  | _ :: rest, i + 1, p => subtreeKids rest i p
-def subtreeSeq : List Val → Nat → List Nat → Option Val
-  | [], _, _ => none
-  | v :: _, 0, p => subtree v p
-  | _ :: rest, i + 1, p => subtreeSeq rest i p
-end
+/-- positions of the `pre` callbacks of a trace, in delivery order -/
+def pres (es : List Ev) : List Pos := (es.filter (fun e => !e.post)).map (·.pos)
+/-- positions of the `post` callbacks of a trace, in delivery order -/
+def posts (es : List Ev) : List Pos := (es.filter (fun e => e.post)).map (·.pos)
 
 /-- well-nested over positions: every `post` closes the most recent open `pre` of the same position -/
 def dyck : List Pos → List Ev → Bool
